@@ -50,7 +50,7 @@ def _case(draw):
     spec["lib"] = {"public.openTypeCategories": {n: "base" for n in lat} | {"acutecomb": "mark"}}
     spec["features"] = "languagesystem DFLT dflt;\nlanguagesystem latn dflt;\n"
     spec["groups"] = {"public.kern1.g": lat[:2], "public.kern2.g": lat[-2:]}
-    val = st.integers(-90, 90)
+    val = st.one_of(st.integers(-90, 90), st.integers(-90, 90), st.sampled_from([-37.6, 12.4, -20.5, 33.5, 8.75]))  # UFO kerning values may be fractional; the font stores them rounded
     # the group pair is never zero in any master (jitter is at most 18), so every master has a GPOS table to merge when variableFeatures=False
     kerning = [["public.kern1.g", "public.kern2.g", draw(st.one_of(st.integers(25, 90), st.integers(-90, -25)))]]
     side = draw(st.sampled_from(["glyph-group", "group-glyph"]))
